@@ -7,7 +7,9 @@ lists every place in the sources where state could live OUTSIDE those objects:
   C (clang JSON AST of c/lib/rf_write_hdf5.c and python/lib/py_rf_write_hdf5.c)
     * a local variable with static storage duration,
     * a file-scope variable that is not const-qualified (the extension's PyMethodDef / PyModuleDef tables,
-      which CPython requires to be static and never writes after initialisation, are exempt by type);
+      which CPython requires to be static and never writes after initialisation, are exempt by type),
+    * a release of the GIL (Py_BEGIN_ALLOW_THREADS = PyEval_SaveThread ...): the library's calls of gmtime() and of
+      HDF5 share per-process state, which only the GIL keeps out of two threads' hands at once;
   Python (ast of the package modules)
     * a class attribute bound to a mutable container (list / dict / set display or comprehension, or a call of
       list, dict, set, defaultdict, OrderedDict, deque, Counter),
@@ -34,6 +36,7 @@ MUT_CALLS = {"list", "dict", "set", "defaultdict", "OrderedDict", "deque", "Coun
 MUT_METHODS = {"append", "extend", "insert", "pop", "remove", "clear", "update", "setdefault", "add", "discard", "sort", "reverse",
                "popitem", "appendleft", "popleft"}
 EXEMPT_C_TYPES = ("PyMethodDef", "PyModuleDef", "PyTypeObject")
+GIL_RELEASE = ("PyEval_SaveThread", "PyEval_ReleaseThread", "PyEval_ReleaseLock", "PyGILState_Release")
 
 
 def c_sites(repo, rel):
@@ -72,6 +75,11 @@ def c_sites(repo, rel):
             fname = d.get("name")
 
             def walk(n):
+                # the sequential models assume that calls into the library are serialised: the library calls gmtime()
+                # (one static struct tm per process) and HDF5 (process-wide state).  A release of the GIL in the
+                # extension lets two Python threads run library code at once.
+                if n.get("kind") == "DeclRefExpr" and (n.get("referencedDecl") or {}).get("name") in GIL_RELEASE:
+                    out.append("%s: %s() releases the GIL (%s)" % (rel, fname, n["referencedDecl"]["name"]))
                 if n.get("kind") == "VarDecl" and n.get("storageClass") == "static":
                     ty = (n.get("type") or {}).get("qualType", "")
                     if not (ty.startswith("const ") or " const" in ty or any(t in ty for t in EXEMPT_C_TYPES)):
